@@ -53,3 +53,15 @@ pub fn take() -> Vec<String> {
 pub fn any_contains(needle: &str) -> bool {
     LOGS.with(|l| l.borrow().iter().any(|s| s.contains(needle)))
 }
+
+/// Facts about what the formatter logged during the current check (for finding signatures).
+pub fn facts() -> Vec<String> {
+    let mut v = vec![];
+    if any_contains("Iteration limit reached") {
+        v.push("log:iteration-limit".to_string());
+    }
+    if any_contains("No solution found") {
+        v.push("log:no-solution".to_string());
+    }
+    v
+}
